@@ -435,6 +435,7 @@ func (env *Env) c19TypedErrors() {
 		}
 	}
 	n := 0
+	stepEngine := env.engine()
 	// propagate upwards through callers
 	work := []*ssa.Function{}
 	for f := range carries {
@@ -444,7 +445,10 @@ func (env *Env) c19TypedErrors() {
 		f := work[len(work)-1]
 		work = work[:len(work)-1]
 		callers := append([]ssa.CallInstruction{}, env.P.Callers[f]...)
-		if par := f.Parent(); par != nil {
+		// handed as a step to a helper that calls it through the parameter
+		steps, _ := stepEngine.StepSites(f)
+		callers = append(callers, steps...)
+		if par := f.Parent(); par != nil && len(steps) == 0 {
 			// a function literal is run through a function value: every call of a
 			// function value with an error result in the function that creates it
 			// may be a call of it
